@@ -66,7 +66,9 @@ Fixpoint len_impl (v : view) : option N :=
 (** [ArrayLike::get] : [None] = panic, [Some None] = out of bounds, [Some (Some e)] = element. *)
 Fixpoint get_impl (v : view) (i : N) : option (option elem) :=
   match v with
-  | Vec l => Some (nth_error l (N.to_nat i))
+  | Vec l =>
+      (* the bound test only keeps the model executable for huge [i] (no unary number is built) *)
+      Some (if N.of_nat (length l) <=? i then None else nth_error l (N.to_nat i))
   | Slice inner from to step =>
       match len_impl v with
       | None => None
